@@ -343,7 +343,12 @@ func (self Value) getByPath(pathes ...Path) (Value, []int) {
 				if err != nil {
 					return errValue(meta.ErrRead, "GetByPath: read field length failed.", err), address
 				}
+				if Len < 0 || Len > len(p.Buf)-p.Read {
+					return errValue(meta.ErrRead, "GetByPath: field length exceeds the buffer.", nil), address
+				}
 				messageLen += Len
+				// lists and maps of this message end where the message ends, not where the buffer ends
+				p.Buf = p.Buf[:p.Read+Len]
 			}
 
 			fd := desc.Message().ByNumber(id)
@@ -367,7 +372,12 @@ func (self Value) getByPath(pathes ...Path) (Value, []int) {
 				if err != nil {
 					return errValue(meta.ErrRead, "GetByPath: read field length failed.", err), address
 				}
+				if Len < 0 || Len > len(p.Buf)-p.Read {
+					return errValue(meta.ErrRead, "GetByPath: field length exceeds the buffer.", nil), address
+				}
 				messageLen += Len
+				// lists and maps of this message end where the message ends, not where the buffer ends
+				p.Buf = p.Buf[:p.Read+Len]
 			}
 
 			fd := desc.Message().ByName(name)
